@@ -23,8 +23,8 @@ func (vc *FuncVC) doBuiltin(st *State, fr *Frame, instr ssa.Instruction, cc *ssa
 		case *types.Slice:
 			set(V{app("slen", x.T), SInt, types.Typ[types.Int]})
 		case *types.Map:
-			ks, vs := w.sortOf(u.Key()), w.sortOf(u.Elem())
-			dn, dso, _, _ := mapHeaps(ks, vs)
+			ks := w.sortOf(u.Key())
+			dn, dso, _, _ := mapHeaps(w, u)
 			vc.checkMapRead(st, fr, cc.Args[0], x, instr)
 			vc.declCard(ks)
 			d := ite(eq(x.T, "0"), w.zero(arraySort(ks, SBool)), sel(st.heapGet(dn, dso), x.T))
@@ -53,9 +53,9 @@ func (vc *FuncVC) doBuiltin(st *State, fr *Frame, instr ssa.Instruction, cc *ssa
 		return vc.doAppend(st, fr, instr, cc, args)
 	case "delete":
 		m, k := args[0].(V), args[1].(V)
-		ks, vs, _ := vc.mapSorts(cc.Args[0].Type())
+		_, _, mt := vc.mapSorts(cc.Args[0].Type())
 		vc.checkMapWrite(st, fr, cc.Args[0], m, instr)
-		vc.mapDelete(st, m, k, ks, vs)
+		vc.mapDelete(st, m, k, mt)
 	case "close":
 		ch := args[0].(V)
 		vc.chanClose(st, fr, instr, cc.Args[0], ch, site)
